@@ -335,20 +335,31 @@ class DefaultOperatorResolver(OperatorResolver):
             )
 
         def power(arg: OrderedSet[Term], power: OrderedSet[Term]) -> OrderedSet[Term]:
-            power_term = next(iter(power))
+            power_term = next(iter(power), None)
+            exponent = None
             if (
-                not len(power_term.factors) == 1
-                or not power_term.factors[0].token
-                or power_term.factors[0].token.kind is not Token.Kind.VALUE
-                or not isinstance(ast.literal_eval(power_term.factors[0].expr), int)
+                power_term is not None
+                and len(power) == 1
+                and len(power_term.factors) == 1
+                and power_term.factors[0].token
+                and power_term.factors[0].token.kind is Token.Kind.VALUE
+            ):
+                try:
+                    exponent = ast.literal_eval(power_term.factors[0].expr)
+                except (ValueError, SyntaxError):
+                    exponent = None
+            if (
+                not isinstance(exponent, int)
+                or isinstance(exponent, bool)
+                or exponent < 1
             ):
                 raise exc_for_token(
-                    power_term.factors[0].token or Token(),
+                    (power_term.factors[0].token if power_term else None) or Token(),
                     "The right-hand argument of `**` must be a positive integer.",
                 )
             return OrderedSet(
                 functools.reduce(lambda x, y: x * y, term)
-                for term in itertools.product(*[arg] * int(power_term.factors[0].expr))
+                for term in itertools.product(*[arg] * exponent)
             )
 
         def multistage_formula(
